@@ -207,8 +207,11 @@ class Buffer:
         
         padding_length: int = buffer.padding_length
         mask: bytes = (0xff >> padding_length) & 0xff
-        first_byte = (buffer.content[0] & mask).to_bytes(1, 'big')
-        content = first_byte + buffer.content[1:]
+        if buffer.length > 0:
+            first_byte = (buffer.content[0] & mask).to_bytes(1, 'big')
+            content = first_byte + buffer.content[1:]
+        else:
+            content = b''
 
         if 'int' in type:
             encoding: str = 'big' if encoding == 'big-endian' else 'little'
@@ -391,6 +394,8 @@ class Buffer:
         return bitwise_xor_buffer
     
     def __invert__(self):
+        if self.length == 0:
+            return self.copy()
         two_complement_content: bytes = b''
         if self.padding == Padding.LEFT:
             mask: int = (1 << (8 - self.padding_length)%8) - 1
